@@ -491,38 +491,38 @@ class Table:
             if method == "bisect":
                 return [ (lo,my_bisect_left(col,arg,lo,hi)) ]
             else:
-                return [ i for i,c in enumerate(col,lo) if c is not None and c < arg ]
+                return [ i for i,c in enumerate(col,lo) if c is not None and c is not Missing and c < arg ]
 
         if comparison == "<=":
             if method == "bisect":
                 return [ (lo,my_bisect_right(col,arg,lo,hi)) ]
             else:
-                return [ i for i,c in enumerate(col,lo) if c is not None and c <= arg ]
+                return [ i for i,c in enumerate(col,lo) if c is not None and c is not Missing and c <= arg ]
 
         if comparison == ">=":
             if method == "bisect":
-                return [ (my_bisect_left(col,arg,lo,hi), hi) ]
+                return [ (my_bisect_left(col,arg,lo,hi), my_bisect_left(col,Missing,lo,hi)) ]
             else:
-                return [ i for i,c in enumerate(col,lo) if c is not None and c >= arg ]
+                return [ i for i,c in enumerate(col,lo) if c is not None and c is not Missing and c >= arg ]
 
         if comparison == ">":
             if method == "bisect":
-                return [ (my_bisect_right(col,arg,lo,hi), hi) ]
+                return [ (my_bisect_right(col,arg,lo,hi), my_bisect_left(col,Missing,lo,hi)) ]
             else:
-                return [ i for i,c in enumerate(col,lo) if c is not None and c > arg ]
+                return [ i for i,c in enumerate(col,lo) if c is not None and c is not Missing and c > arg ]
 
         if comparison == "match":
             if isinstance(arg,Number) and col and isinstance(col[0],Number):
                 return [ i for i,c in enumerate(col,lo) if c == arg ]
             elif isinstance(arg,Number) and isinstance(col[0],str):
                 _re = re.compile(f'(\D|^){arg}(\D|$)')
-                return [ i for i,c in enumerate(col,lo) if c is not None and _re.search(c) ]
+                return [ i for i,c in enumerate(col,lo) if c is not None and c is not Missing and _re.search(c) ]
             elif isinstance(arg,str) and isinstance(col[0],str):
                 _re = re.compile(arg)
-                return [ i for i,c in enumerate(col,lo) if c is not None and _re.search(c) ]
+                return [ i for i,c in enumerate(col,lo) if c is not None and c is not Missing and _re.search(c) ]
             else:
                 _re = re.compile(str(arg))
-                return [ i for i,c in enumerate(col,lo) if c is not None and _re.search(str(c)) ]
+                return [ i for i,c in enumerate(col,lo) if c is not None and c is not Missing and _re.search(str(c)) ]
 
 class TransactionDecode:
     def filter(self, transactions:Iterable[str]) -> Iterable[Any]:
